@@ -77,7 +77,7 @@ pub fn step<S: Src, const N: usize, const SDES: bool>(s: &mut S) {
         match (&got, &want) {
             (Ok(a), Ok(b)) => {
                 assert!(same_variant(a, b));
-                assert!(a.header_data() == b.header_data() && a.length() == l);
+                assert!(u32::from_be_bytes(a.header_data()) == u32::from_be_bytes(b.header_data()) && a.length() == l);
                 if let (Packet::Unknown(x), Packet::Unknown(y)) = (a, b) {
                     assert!(x.data().as_ptr() == tile.as_ptr() && y.data().len() == x.data().len());
                 }
@@ -126,7 +126,7 @@ pub fn public<S: Src, const N: usize>(s: &mut S) {
                 let got = r.expect("no item although tiles remain");
                 assert!(got.is_ok() == want.is_ok());
                 if let (Ok(a), Ok(b)) = (&got, &want) {
-                    assert!(same_variant(a, b) && a.header_data() == b.header_data());
+                    assert!(same_variant(a, b) && u32::from_be_bytes(a.header_data()) == u32::from_be_bytes(b.header_data()));
                 }
                 if got.is_err() {
                     stopped = true;
@@ -143,9 +143,10 @@ pub fn public<S: Src, const N: usize>(s: &mut S) {
 common::register! {
     q_parse = parse::<_, 64> => 18,
     q_step = step::<_, 64, false> => 2,
-    q_step_sdes = step::<_, 12, true> => 2,
+    q_step_sdes = step::<_, 8, true> => 2,
     t_parse = parse::<_, 256> => 66,
     t_step = step::<_, 256, false> => 2,
+    t_step_sdes_12 = step::<_, 12, true> => 2,
     t_step_sdes = step::<_, 16, true> => 2,
     t_public = public::<_, 16> => 8,
 }
